@@ -7,8 +7,9 @@
 A <mutdir> holds patch.diff and demo.rs."""
 import os, subprocess, sys, shutil, json, time
 
-REPO = "/repo"
-SCR = "/tmp/mv"
+REPO = os.environ.get("VERIF_REPO", "/repo")          # development lanes may point these elsewhere
+VERIF = os.environ.get("VERIF_DIR", "/verif")
+SCR = os.environ.get("VERIF_SCR", "/tmp/mv")
 
 
 def sh(cmd, cwd=None, env=None, timeout=3600):
@@ -62,7 +63,7 @@ def detect(mutdir, pids, tier="quick"):
     try:
         for pid in pids:
             t = time.time()
-            rc, out = sh("./check %s --tier %s" % (pid, tier), cwd="/verif")
+            rc, out = sh("./check %s --tier %s" % (pid, tier), cwd=VERIF)
             lines = [l for l in out.splitlines() if l.startswith("VIOLATION") or l.startswith("OK ") or l.startswith("TOOL-ERROR") or l.startswith("KNOWN")]
             res[pid] = {"rc": rc, "wall": round(time.time() - t, 1), "lines": lines[:6]}
     finally:
